@@ -35,7 +35,7 @@ func TestC09Password(t *testing.T) {
 	vInit("none")
 	var cases []c09PwCase
 	vReadJSON(t, "VERIF_CASES", &cases)
-	ips := map[string]string{"ip1": "127.0.0.1", "ip2": "10.1.2.3", "ip1x": "127.0.0.10", "ipz": "192.168.7.7", "ip6l": "[2001:db8::7]", "ip6u": "[2001:db8::99]"}
+	ips := map[string]string{"ip1": "127.0.0.1", "ip2": "10.1.2.30", "ip2p": "10.1.2.3", "ip1x": "127.0.0.10", "ipz": "192.168.7.7", "ip6l": "[2001:db8::7]", "ip6u": "[2001:db8::99]"}
 	users := map[string]string{"health": config.HealthUser, "schedule": config.ScheduleUser, "continuous": config.ContinuousUser, "other": "alice",
 		"healthcase": strings.ToLower(config.HealthUser), "schedulecase": strings.Title(strings.ToLower(config.ScheduleUser))}
 	pws := map[string]string{"HEALTHPW": config.HealthUser, "job1": "nightly-errors", "job2": "weekly report", "job3": "watch-oom", "jobX": "shared name", "wrong": "letmein", "": ""}
